@@ -1,7 +1,7 @@
 (* C12 — equality, ordering and hashing agree with the canonical string (LanguageIdentifier level;
    derived PartialEq/Ord/Hash are modelled structurally: a derived hash is a function of the
    structural value, so equal values hash equally by construction). *)
-From UL Require Import Bytes Subtags LangId Ext Grammar LangIdSpec LocaleInv LangIdProofs LangIdAlgebra RoundTrip.
+From UL Require Import Bytes Subtags LangId Ext LocaleOrd Grammar LangIdSpec LocaleInv LangIdProofs LangIdAlgebra RoundTrip LocaleAlgebra.
 
 Theorem C12_eqb_is_eq : forall x y, li_eqb x y = true <-> x = y.
 Proof. exact li_eqb_iff. Qed.
@@ -35,6 +35,37 @@ Proof.
   rewrite E in Rx. congruence.
 Qed.
 
+(* ---- the same at Locale level (derived impls on Locale / ExtensionsMap / the three extension lists,
+   model/LocaleOrd.v: fields in declaration order, a BTreeMap as the sequence of its pairs) ---- *)
+Theorem C12_locale_eqb_is_eq : forall x y, loc_eqb x y = true <-> x = y.
+Proof. exact loc_eqb_iff. Qed.
+Theorem C12_locale_eq_iff_string : forall x y, loc_inv x = true -> loc_inv y = true ->
+  (loc_eqb x y = true <-> loc_to_string x = loc_to_string y).
+Proof. exact loc_eq_iff_string. Qed.
+Theorem C12_locale_cmp_eq : forall x y, loc_cmp x y = Eq <-> x = y.
+Proof. exact loc_cmp_eq. Qed.
+Theorem C12_locale_cmp_antisym : forall x y, loc_cmp y x = CompOpp (loc_cmp x y).
+Proof. exact loc_cmp_antisym. Qed.
+Theorem C12_locale_cmp_trans : forall x y z, loc_cmp x y = Lt -> loc_cmp y z = Lt -> loc_cmp x z = Lt.
+Proof. exact loc_cmp_lt_trans. Qed.
+(* the language identifier is compared first, field by field as in C12_cmp_fields *)
+Theorem C12_locale_cmp_id_first : forall x y, li_cmp (loc_id x) (loc_id y) <> Eq -> loc_cmp x y = li_cmp (loc_id x) (loc_id y).
+Proof. exact loc_cmp_id_first. Qed.
+(* comparing with a &str: true iff the string is the canonical text - by definition of the model
+   (`beqb (li_to_string x) t`), and the canonical text determines the value (C12_eq_iff_string) *)
+Theorem C12_eq_str : forall x y, li_inv x = true -> li_inv y = true ->
+  (beqb (li_to_string x) (li_to_string y) = true <-> x = y).
+Proof.
+  intros x y Hx Hy. rewrite BytesProofs.beqb_eq. split; [apply li_to_string_inj; assumption|intros ->; reflexivity].
+Qed.
+
+Print Assumptions C12_locale_eqb_is_eq.
+Print Assumptions C12_locale_eq_iff_string.
+Print Assumptions C12_locale_cmp_eq.
+Print Assumptions C12_locale_cmp_antisym.
+Print Assumptions C12_locale_cmp_trans.
+Print Assumptions C12_locale_cmp_id_first.
+Print Assumptions C12_eq_str.
 Print Assumptions C12_locale_string_inj.
 Print Assumptions C12_eqb_is_eq.
 Print Assumptions C12_eq_iff_string.
